@@ -285,4 +285,69 @@ def selsFrom (st : State α) : List (Op α) → List (Sel α)
 /-- harness op `b`: send a batch, then pump -/
 def Op.b (left : Bool) (r : Nat) (es : List (Elem α)) : List (Op α) := [.enq left r es, .pump]
 
+/-! ## Specification side: the input contract of a binary start with a cached side (batch level) -/
+
+/-- neither `FlushAndRestart` nor `Terminate` -/
+def plainE {β : Type} (e : Elem β) : Bool := !e.isFar && !e.isTerm
+
+/-- the control tail of a batch: `(has FlushAndRestart, has Terminate)` -/
+def tailKind {β : Type} : List (Elem β) → Option (Bool × Bool)
+  | [] => some (false, false)
+  | [.far] => some (true, false)
+  | [.far, .term] => some (true, true)
+  | [.term] => some (false, true)
+  | _ => none
+
+/-- a batch is `plain elements ++ control tail` -/
+def batchKind {β : Type} (es : List (Elem β)) : Option (Bool × Bool) := tailKind (es.dropWhile plainE)
+
+def plainPart {β : Type} (es : List (Elem β)) : List (Elem β) := es.takeWhile plainE
+
+def b2n (b : Bool) : Nat := if b then 1 else 0
+
+
+/-! ### Contract
+
+  Batches are `plain elements ++ control tail` (`End` flushes at `FlushAndRestart` and at `Terminate`,
+  src/operator/end.rs:223-228). Replicas are not told apart: only counts matter to the receiver. -/
+
+/-- **cached side** (one iteration, then every replica terminates): `f` / `t` = `FlushAndRestart`s /
+    `Terminate`s sent so far; never more than `n`, a `Terminate` only after a `FlushAndRestart`, no data
+    once all replicas have ended. -/
+def cachedOk (n : Nat) : Nat → Nat → List (Batch α) → Bool
+  | _, _, [] => true
+  | f, t, (_, es) :: bs =>
+    match batchKind es with
+    | none => false
+    | some (hf, ht) =>
+      decide (f + b2n hf ≤ n) && decide (t + b2n ht ≤ f + b2n hf) && (decide (f < n) || (plainPart es).isEmpty)
+        && cachedOk n (f + b2n hf) (t + b2n ht) bs
+
+/-- **loop side**: rounds of `n` `FlushAndRestart`s (`f` = sent in the current round, `o` = the round
+    has been opened by some batch), a batch ends at its `FlushAndRestart`; `Terminate`s (`t` so far)
+    travel alone, only between rounds, after at least one round (`k`), and nothing follows them. -/
+def loopOk (n : Nat) : Nat → Nat → Bool → Bool → List (Batch α) → Bool
+  | _, _, _, _, [] => true
+  | f, t, k, o, (_, es) :: bs =>
+    match batchKind es with
+    | some (hf, false) =>
+      decide (t = 0) && decide (f < n) &&
+        (if hf && f + 1 == n then loopOk n 0 0 true false bs
+         else loopOk n (f + b2n hf) 0 k true bs)
+    | some (false, true) =>
+      (plainPart es).isEmpty && !o && k && decide (t < n) && loopOk n 0 (t + 1) k false bs
+    | _ => false
+
+/-- batches sent on one side by a history, in order -/
+def sentBatches (left : Bool) : List (Op α) → List (Batch α)
+  | [] => []
+  | .enq l r es :: ops => if l = left then (r, es) :: sentBatches left ops else sentBatches left ops
+  | .pump :: ops => sentBatches left ops
+
+/-- the input contract of a history for `nL` / `nR` replicas with the LEFT side cached -/
+def contractL (nL nR : Nat) (ops : List (Op α)) : Bool :=
+  decide (0 < nL) && decide (0 < nR) && cachedOk nL 0 0 (sentBatches true ops)
+    && loopOk nR 0 0 false false (sentBatches false ops)
+
+
 end Noir.BinaryStart
